@@ -172,6 +172,14 @@ def attribution_battery():
                       note="rows that repeat their inputs report the answer of their own call"))
     b.append(Scenario("Y B\nX X\nX X\n2 X\n", [("out", "Y", 8), ("out", "B", 8)], layout=["Y", "B"], default_answer=[0, 0],
                       answers={1: [1, 1], 2: [2, 2], 3: [3, 3]}, note="a test without input columns reports each call's answer"))
+    # fifth round: program variables and loop counters named like device outputs - the reported output is the device's
+    Sv = [("in", "A", 8, 0), ("out", "Y", 8), ("out", "Q", 8), ("out", "i", 8), ("out", "n", 8)]
+    b.append(Scenario("A Y Q i n\nlet Y = 3;\nlet Q = Y + 1;\n(Y) X X X X\nloop(i,2)\n(i) 5 6 X X\nend loop\nrepeat(2) (n) X X X 8\n", Sv,
+                      layout=["Y", "Q", "i", "n"], default_answer=[50, 60, 70, 80],
+                      answers={1: [51, 61, 71, 81], 2: [5, 6, 72, 82], 3: [53, 63, 73, 83], 5: [55, 65, 75, 8]},
+                      note="variables and counters named like outputs: rows report what the driver returned"))
+    b.append(Scenario("A Y Q\nlet Y = 3;\n(Y) 3 X\n(Y+1) 3 X\n", Sv, layout=["Q", "Y"], default_answer=[9, 7],
+                      note="a variable equal to the expected value does not make the row pass"))
     # second-round additions: names differing only in case, layouts that are a prefix of the signal list, expected Z
     # against an unknown output
     Sc = [("in", "A", 1, 0), ("out", "q", 8), ("out", "Q", 8), ("out", "Data", 8), ("out", "DATA", 8)]
@@ -279,6 +287,17 @@ def fault_battery():
                       layout_at={2: ["Q", "Y"]}, answers={1: [5, 6], 2: [7, 9], 3: [11, 21]}, stop_on_err=False,
                       expect={"row_inputs": [["1"], ["9"]], "items": ["row", "err", "row"]},
                       note="a swapped answer in a later row"))
+    # fifth round.  (d) faults in every call of identical consecutive clocked rows (no input changes between them)
+    progc = "A CLK Y Q\n1 C X X\n1 C X X\n1 C X X\n"
+    for k in range(1, 10):
+        b.append(Scenario(progc, S, default_answer=[1, 2], fail_at=[k], note="identical clocked rows, fault at call %d" % k))
+        b.append(Scenario(progc, S, default_answer=[1, 2], fail_at=[k], override_write=False, note="identical clocked rows, fault at call %d, default write_input" % k))
+    # (e) a device that answers the constructor's call with no outputs and reports outputs later (and the reverse)
+    for k in (1, 2, 3):
+        b.append(Scenario(prog, S, layout=[], default_answer=[], layout_at=dict((j, ["Y", "Q"]) for j in range(k, 9)), answers=dict((j, [1, 2]) for j in range(k, 9)),
+                          override_write=False, stop_on_err=False, note="no outputs at construction, outputs from call %d on (default write_input)" % k))
+        b.append(Scenario(prog, S, layout=[], default_answer=[], layout_at=dict((j, ["Y"]) for j in range(k, 9)), answers=dict((j, [1]) for j in range(k, 9)),
+                          stop_on_err=False, note="no outputs at construction, one output from call %d on" % k))
     # (c) tests without any output-capable signal: the constructor still makes its call, faults surface where they happen
     Sin = [("in", "A", 1, 0), ("in", "B", 4, 3)]
     for k in (0, 1, 2):
@@ -750,6 +769,12 @@ def random_battery():
         b.append(Scenario(hdr + "0 (%s)\nresetRandom;\nlet p = random(%s);\nlet q = random(%s);\nlet r = random(1000);\nlet t = random(1000);\n0 (%s)\n"
                           % (e1, BIG, BIG, e2), S, expect={"replay": [(1, 0)]},
                           note="both operands of `%s` draw: left operand first" % op))
+    # fifth round: a bound that draws is evaluated - and draws - once per loop, not once per pass
+    for head in ("loop(i, (random(%s) & 1) + 2)\n0 (random(%s))\nend loop\n" % (BIG, BIG), "repeat((random(%s) & 1) + 2) 0 (random(%s))\n" % (BIG, BIG)):
+        b.append(Scenario(hdr + "let b = (random(%s) & 1) + 2;\n0 (random(%s))\n0 (random(%s))\nresetRandom;\n" % ((BIG,) * 3) + head, S,
+                          expect={"replay": [(2, 0), (3, 1)]}, note="a loop / repeat bound containing random() draws once: the rows of the loop replay the draws that follow"))
+    b.append(Scenario(hdr + "let b = random(%s);\n0 (random(%s))\n0 (random(%s))\n0 (random(%s))\nresetRandom;\nloop(i, 2 + 0 * random(%s))\n0 (random(%s))\nend loop\n0 (random(%s))\n" % ((BIG,) * 7), S,
+                      expect={"replay": [(3, 0), (4, 1), (5, 2)]}, note="bound with a draw, two passes, then a draw after the loop"))
     b.append(Scenario(hdr + "0 (random(%s))\n0 (random(%s))\nresetRandom;\nbits(0, random(%s)) 0 (random(%s))\n" % ((BIG,) * 4), S,
                       expect={"replay": [(2, 1)]}, note="bits(0, e) fills no column but still evaluates e, and draws, once"))
     b.append(Scenario(hdr + "0 (random(%s))\n0 (random(%s))\n0 (random(%s))\nresetRandom;\nbits(0, random(%s)) bits(0, random(%s)) 0 (random(%s))\n" % ((BIG,) * 6), S,
@@ -1063,6 +1088,13 @@ def static_battery():
                           note="another iterator over the same test is dropped after %d rows first" % k))
     b.append(Scenario("A CLK Y Q\nX C 1 2\n", S, mode="both", default_answer=[1, 2], abandon=2, expect={"static": "ok"},
                       note="an iterator dropped in the middle of an X / C expansion leaves nothing behind"))
+    # fifth round: the same TestCase value iterated before by drivers with other output layouts (same length, another
+    # order; a subset; nothing) - the observed run equals the static rows all the same
+    for pre in ([["Q", "Y"]], [["Y"], ["Q"]], [[], ["Q", "Y"]], [["Y", "Q"], ["Q", "Y"], ["Q"]]):
+        b.append(Scenario(prog, S, mode="both", default_answer=[3, 4], layout=["Y", "Q"], pre_layouts=pre, expect={"static": "ok"},
+                          note="the test case was run before by drivers with layouts %s" % pre))
+        b.append(Scenario(prog, S, mode="both", default_answer=[4], layout=["Q"], pre_layouts=pre, expect={"static": "ok"},
+                          note="observed driver supplies only Q; earlier drivers had layouts %s" % pre))
     # fourth round: what a fault leaves behind.  Rows after a failed call (driver error, wrong count, wrong order) equal
     # the static rows - values, changed flags and lines - also where variables shadow device outputs
     progv = "A CLK Y Q\nlet Q = 7;\nlet Y = 1;\n1 0 X X\n(Q+2) 0 X X\n(Q+2) 0 X X\nloop(i,2)\n(Q+Y+i) 0 X X\nend loop\n(Q+2) C X X\n"
@@ -1198,6 +1230,18 @@ def dig_battery():
     t5 = ("cr-blank-first", "\r\n\r\nA Y\r\n1 1\r\n")
     b.append(Scenario(dig_xml(pins, [t5]), [], mode="dig", load="0", default_answer=[0, 0],
                       expect={"dig": "ok", "load": "ok", "tests": [t5], "lines": [4]}, note="CRLF blank lines before the header of a document test"))
+    # fifth round: labels are compared exactly (blanks, case and line breaks count)
+    ta, tb, tc = ("add ", "A Y\n1 1\n"), ("add", "A Y\n2 2\n"), (" add", "A Y\n3 3\n")
+    b.append(Scenario(dig_xml(pins, [ta, tb, tc]), [], mode="dig", load="name:" + "add".encode().hex(), default_answer=[0, 0],
+                      expect={"dig": "ok", "load": "ok", "tests": [ta, tb, tc], "row_inputs": [["2", "0", "0", "Z"]]},
+                      note="labels that differ only by surrounding blanks: the exact one is selected"))
+    b.append(Scenario(dig_xml(pins, [ta, tb, tc]), [], mode="dig", load="name:" + " add".encode().hex(), default_answer=[0, 0],
+                      expect={"dig": "ok", "load": "ok", "row_inputs": [["3", "0", "0", "Z"]]}, note="label with a leading blank is its own name"))
+    for nm in ("add  ", "ADD", "add\n", "\tadd", "ad"):
+        b.append(Scenario(dig_xml(pins, [ta, tb]), [], mode="dig", load="name:" + nm.encode().hex(), default_answer=[0, 0],
+                          expect={"dig": "ok", "load": "err"}, note="a name that matches no label exactly (%r) is unknown" % nm))
+    b.append(Scenario(dig_xml(pins, [ta]), [], mode="dig", load="name:" + "add".encode().hex(), default_answer=[0, 0],
+                      expect={"dig": "ok", "load": "err"}, note="only a padded label exists: the bare name is unknown"))
     pinsn = [("In", "N", 8, -1), ("In", "M", 64, -128), ("In", "P", 4, 9), ("Out", "Y", 8, None)]
     b.append(Scenario(dig_xml(pinsn, [("t", "P Y\n1 1\n")]), [], mode="dig", load="0", default_answer=[0],
                       expect={"dig": "ok", "signals": ["N:8:in:-1", "M:64:in:-128", "P:4:in:9", "Y:8:out"], "load": "ok",
